@@ -1,6 +1,9 @@
 // vh.h - plumbing shared by all harness processes: PRNG, arguments, case loop,
 // coverage counters, violation records, progress side-file, JSON result.
 #pragma once
+#include <sys/prctl.h>
+#include <signal.h>
+#include <unistd.h>
 #include <cstdint>
 #include <cstdio>
 #include <cstdlib>
@@ -74,6 +77,10 @@ struct Args {
 };
 
 inline Args parse_args(int argc, char** argv) {
+  // a harness process must not outlive the driver that started it (an interrupted driver once left sixteen of them
+  // spinning for hours), nor run for ever: die with the parent, and at the latest after eight hours
+  prctl(PR_SET_PDEATHSIG, SIGKILL);
+  alarm(8 * 3600);
   Args a;
   for (int i = 1; i < argc; i++) {
     std::string k = argv[i];
